@@ -70,3 +70,36 @@ func (vs *VerifSource) VerifC06HasProjectors() []bool {
 	}
 	return out
 }
+
+// VerifC06SetChanNumbers gives the channels of a prepared scripted source the numbers a real source
+// (Abaco / ROACH / Lancero numbering, possibly with gaps) would have given them in PrepareChannels.
+func (vs *VerifSource) VerifC06SetChanNumbers(nums []int) {
+	for i, n := range nums {
+		if i < len(vs.chanNumbers) {
+			vs.chanNumbers[i] = n
+			vs.processors[i].ChannelNumber = n
+		}
+	}
+}
+
+// VerifC06SetMap installs a pixel map of npixels pixels in the map server (as MapServer.Load does
+// after reading a map file); npixels < 0 unloads it.
+func (s *SourceControl) VerifC06SetMap(npixels int) {
+	if npixels < 0 {
+		s.mapServer.Map = nil
+		return
+	}
+	m := &Map{Spacing: 1, Filename: "verif"}
+	for i := 0; i < npixels; i++ {
+		m.Pixels = append(m.Pixels, Pixel{X: 10 * i, Y: 7 * i, Name: "px"})
+	}
+	s.mapServer.Map = m
+}
+
+// VerifC06MapLen is the number of pixels of the loaded map, -1 when none is loaded.
+func (s *SourceControl) VerifC06MapLen() int {
+	if s.mapServer.Map == nil {
+		return -1
+	}
+	return len(s.mapServer.Map.Pixels)
+}
